@@ -221,6 +221,9 @@ fn base_document_json(did: &str, base: &Base) -> (Value, Vec<String>, Vec<(Strin
     rel[4].push(json!(format!("{did}#x-gp")));
     rel[2].push(method_json(did, "x-emb", &EdKey::derive(0xC09E, 1)));
     rel[1].push(json!(FOREIGN_REF));
+    // a reference whose target does not exist (yet): generating a general-purpose method under that fragment is
+    // allowed and must be all-or-nothing like any other
+    rel[3].push(json!(format!("{did}#dangling")));
     fragments.push("x-gp".into());
     fragments.push("x-emb".into());
     doc["service"] = json!([{"id": format!("{did}#svc"), "type": "LinkedDomains", "serviceEndpoint": "https://vcheck.example/"}]);
@@ -449,6 +452,7 @@ fn run_history<D: TestDoc>(case: &Case) -> Result<Trace, Viol> {
   let mut names: Vec<String> = fragments.clone();
   if case.base.extras {
     names.push("svc".into());
+    names.push("dangling".into());
   }
 
   let mut steps = Vec::new();
@@ -534,7 +538,7 @@ fn run_history<D: TestDoc>(case: &Case) -> Result<Trace, Viol> {
     // Keep the harness-side name lists in step with what the document really holds now (an
     // `UndoOperationFailed` or a tolerated known finding may leave any state behind).
     fragments.retain(|f| method_by_fragment(doc.core(), f).is_some());
-    names.retain(|f| f == "svc" || method_by_fragment(doc.core(), f).is_some());
+    names.retain(|f| f == "svc" || f == "dangling" || method_by_fragment(doc.core(), f).is_some());
     steps.push(Step { kind, pre, post, outcome, calls, gen_obs });
     if panicked {
       break;
@@ -680,6 +684,14 @@ fn judge_step(step: &Step, obs: &mut Obs) -> CheckResult {
         "generate-err-method-left-behind",
         "{path}: Err({text}) but the document gained {m_new:?}"
       );
+      // narrow signature for the rollback that takes pre-existing references with it
+      if m_lost.is_empty() && r_new.is_empty() && services_same && !r_lost.is_empty() {
+        vfail!(
+          obs,
+          "generate-rollback-drops-preexisting-references",
+          "{path}: Err({text}) but references that were in the document before the call are gone: {r_lost:?}"
+        );
+      }
       vensure!(
         obs,
         m_lost.is_empty() && r_lost.is_empty() && r_new.is_empty() && services_same,
@@ -878,15 +890,18 @@ fn generate_shapes() -> Vec<Case> {
       for frag in [Frag::Given, Frag::FromKid, Frag::DidPrefixed] {
         v.push(shape(doc, vec![], false, vec![Op::Generate { frag, scope }]));
       }
-      // populated: names = [k0, k1, x-gp, x-emb, svc]; collide with a backed general-purpose method, a backed
-      // embedded method, an unbacked method and the service.
+      // populated: names = [k0, k1, x-gp, x-emb, svc, dangling]; collide with a backed general-purpose method, a
+      // backed embedded method, the unbacked methods, the service, and the id of a dangling reference (which a
+      // general-purpose method may take).
       let populated = || vec![bm(0, 0b00011), bm(2, 0)];
       for frag in [
         Frag::Given,
         Frag::FromKid,
         Frag::Colliding(0),
-        Frag::Colliding(14000),
-        Frag::Colliding(27000),
+        Frag::Colliding(11000),
+        Frag::Colliding(22000),
+        Frag::Colliding(33000),
+        Frag::Colliding(44000),
         Frag::Colliding(65535),
       ] {
         v.push(shape(doc, populated(), true, vec![Op::Generate { frag, scope }]));
